@@ -64,7 +64,7 @@ NewQuery ==
 EpisodeDone ==
     /\ phase = "idle" /\ calls = <<>> /\ cur = NoCall
     /\ phase' = "between"
-    /\ UNCHANGED <<prog, query, nodes, stack, ret, nextId, stop, outbuf, hist, acts, steps, fireAt, crSeen,
+    /\ UNCHANGED <<prog, query, nodes, stack, ret, nextId, stop, outbuf, hist, acts, steps, fireAt, crSeen, lastAct,
                    plan, calls, cur, tainted, reports, epno>>
 
 (* ---------------- start an API call ---------------- *)
